@@ -49,6 +49,8 @@ type Uni struct {
 	// Stream is called for subscription source fields; it must return a value assignable to
 	// the resolver's channel result type (or an error).
 	Stream func(ctx context.Context, path string, chanType reflect.Type, fd *ast.FieldDefinition) (reflect.Value, error)
+	// KeyPrefix distinguishes concurrent requests: it is prepended to park and log keys.
+	KeyPrefix func(ctx context.Context) string
 	// OnCall observes every resolver/directive invocation before it parks.
 	OnCall func(ctx context.Context, kind, path string)
 
@@ -172,13 +174,17 @@ func (u *Uni) call(objType string, fd *ast.FieldDefinition, ft reflect.Type, arg
 	if u.OnCall != nil {
 		u.OnCall(ctx, "res", path)
 	}
-	u.W.Logf("call", path, "")
+	key := path
+	if u.KeyPrefix != nil {
+		key = u.KeyPrefix(ctx) + path
+	}
+	u.W.Logf("call", key, "")
 	if u.Park {
-		if _, killed := u.W.Park("res", path, ctx).(core.Kill); killed {
+		if _, killed := u.W.Park("res", key, ctx).(core.Kill); killed {
 			return retErr(ft, ErrKilled)
 		}
 	}
-	u.W.Logf("return", path, "")
+	u.W.Logf("return", key, "")
 	if u.Ctx == ReturnCtxErr && ctx.Err() != nil {
 		return retErr(ft, ctx.Err())
 	}
@@ -213,9 +219,13 @@ func (u *Uni) Guard(ctx context.Context, obj any, next graphql.Resolver, tag *st
 	if u.OnCall != nil {
 		u.OnCall(ctx, "dir", path)
 	}
-	u.W.Logf("dir", path, "")
+	key := path
+	if u.KeyPrefix != nil {
+		key = u.KeyPrefix(ctx) + path
+	}
+	u.W.Logf("dir", key, "")
 	if u.ParkDir {
-		if _, killed := u.W.Park("dir", path, ctx).(core.Kill); killed {
+		if _, killed := u.W.Park("dir", key, ctx).(core.Kill); killed {
 			return nil, ErrKilled
 		}
 	}
